@@ -419,8 +419,8 @@ _C10 = dict(p_final=0.45, p_on_done=1.0, p_parallel=0.3, p_compound=0.35, p_hist
             p_ondone_targetless=0.4, n_states=(5, 12), p_trans=0.55, p_machine_output=0.4, p_out=0.6)
 
 
-def gen_c10(engine, salt, **kw):
-    base = gen_core(engine, salt, ops_kw={"n_lo": 5, "n_hi": 14}, **dict(_C10, **kw))
+def gen_c10(engine, salt, ops_kw=None, **kw):
+    base = gen_core(engine, salt, ops_kw=ops_kw or {"n_lo": 5, "n_hi": 14}, **dict(_C10, **kw))
 
     def g(seed):
         sc = base(seed)
@@ -432,7 +432,10 @@ def gen_c10(engine, salt, **kw):
 register(
     "C10",
     families=[("done_sync", 3, gen_c10("sync", 61)), ("done_async", 3, gen_c10("async", 62)),
-              ("done_timers_async", 1, gen_c10("async", 63, p_after=0.3, p_invoke=0.2, svc_kinds=("coro", "sync")))],
+              ("done_timers_async", 1, gen_c10("async", 63, p_after=0.3, p_invoke=0.2, svc_kinds=("coro", "sync"))),
+              # the machine completes (or is stopped) while invoked child machines, their timers and their own actors are alive
+              ("done_machines_async", 1, gen_c10("async", 64, p_after=0.2, p_invoke=0.35, svc_kinds=("machine", "coro"), ops_kw={"n_lo": 5, "n_hi": 12, "p_adv": 0.25})),
+              ("done_machines_sync", 1, gen_c10("sync", 65, p_after=0.2, p_invoke=0.35, svc_kinds=("machine", "sync"), ops_kw={"n_lo": 5, "n_hi": 12, "p_adv": 0.25}))],
     oracle=O.oracle_c10,
     stats=O.stats_c10,
     level="exploration",
